@@ -7,7 +7,6 @@ use rand::Rng;
 use routee_compass_core::algorithm::search::direction::Direction;
 use routee_compass_core::algorithm::search::edge_traversal::EdgeTraversal;
 use routee_compass_core::algorithm::search::search_algorithm::SearchAlgorithm;
-use routee_compass_core::algorithm::search::util::route_similarity_function::RouteSimilarityFunction;
 use routee_compass_core::model::network::VertexId;
 use routee_compass_core::model::unit::Cost;
 use serde_json::{json, Value};
@@ -21,22 +20,34 @@ fn underlying(scn: &Value) -> SearchAlgorithm {
         _ => SearchAlgorithm::AStarAlgorithm { weight_factor: Some(Cost::new(jf(&scn["wf"]) / 1000.0)) },
     }
 }
-fn similarity(sim: &Value) -> Option<RouteSimilarityFunction> {
+/// the [algorithm] section of a configuration for this scenario; the algorithm is deserialised from it as the
+/// application does (absent similarity / termination = the defaults)
+fn ksp_config(scn: &Value, sim: &Value) -> Value {
+    let under = match scn["alg"].as_str().unwrap_or("dijkstra") {
+        "dijkstra" => json!({"type": "dijkstra"}),
+        _ => json!({"type": "a*", "weight_factor": jf(&scn["wf"]) / 1000.0}),
+    };
+    let mut cfg = json!({"type": if scn["kalg"] == "svp" { "ksp_single_via" } else { "yens" }, "k": ju(&scn["kcfg"]), "underlying": under});
     let p = sim["p"].as_f64().unwrap_or(0.0) / 10.0;
     match sim["type"].as_str().unwrap() {
         "accept_all" => {
-            if sim["explicit"].as_bool().unwrap_or(false) { Some(RouteSimilarityFunction::AcceptAll) } else { None } // None = the default
+            if sim["explicit"].as_bool().unwrap_or(false) {
+                cfg["similarity"] = json!({"type": "accept_all"});
+            }
         }
-        "edge_id" => Some(RouteSimilarityFunction::EdgeIdCosineSimilarity { threshold: p }),
-        _ => Some(RouteSimilarityFunction::DistanceWeightedCosineSimilarity { threshold: p }),
+        "edge_id" => cfg["similarity"] = json!({"type": "edge_id_cosine_similarity", "threshold": p}),
+        _ => cfg["similarity"] = json!({"type": "distance_weighted_cosine_similarity", "threshold": p}),
     }
+    match scn["term"]["type"].as_str().unwrap_or("default") {
+        "exact" if scn["term"]["explicit"].as_bool().unwrap_or(false) => cfg["termination"] = json!({"type": "exact"}),
+        "max" => cfg["termination"] = json!({"type": "max_iteration", "max": scn["term"]["n"]}),
+        "factor" => cfg["termination"] = json!({"type": "factor", "factor": scn["term"]["n"]}),
+        _ => {}
+    }
+    cfg
 }
-fn ksp_alg(scn: &Value, sim: &Value) -> SearchAlgorithm {
-    let k = ju(&scn["kcfg"]);
-    match scn["kalg"].as_str().unwrap() {
-        "svp" => SearchAlgorithm::KspSingleVia { k, underlying: Box::new(underlying(scn)), similarity: similarity(sim), termination: None },
-        _ => SearchAlgorithm::Yens { k, underlying: Box::new(underlying(scn)), similarity: similarity(sim), termination: None },
-    }
+fn ksp_alg(scn: &Value, sim: &Value) -> Result<SearchAlgorithm, String> {
+    serde_json::from_value::<SearchAlgorithm>(ksp_config(scn, sim)).map_err(|e| format!("algorithm configuration: {}", e))
 }
 
 fn routes_json(lg: &Lg, routes: &[Vec<EdgeTraversal>]) -> Value {
@@ -69,7 +80,11 @@ fn result_event(scn: &Value) -> Value {
         query["k"] = scn["k"].clone(); // the query overrides the configured k
     }
     let (src, dst) = (VertexId(ju(&scn["src"]) - 1), VertexId(ju(&scn["dst"]) - 1));
-    let r = ksp_alg(scn, &scn["sim"]).run_vertex_oriented(src, Some(dst), &query, &Direction::Forward, &b.si);
+    let alg = match ksp_alg(scn, &scn["sim"]) {
+        Ok(a) => a,
+        Err(e) => return json!({"ev": "KResult", "outcome": "build_error", "msg": e, "routes": [], "n_accept_all": -1, "first_len": 0}),
+    };
+    let r = alg.run_vertex_oriented(src, Some(dst), &query, &Direction::Forward, &b.si);
     let (outcome, msg) = outcome_of(&r);
     let mut ev = json!({"ev": "KResult", "outcome": outcome, "msg": msg, "routes": [], "ntrees": 0, "n_accept_all": -1, "first_len": 0});
     if let Ok(res) = &r {
@@ -78,7 +93,7 @@ fn result_event(scn: &Value) -> Value {
         ev["first_len"] = json!(res.routes.first().map(|r| r.len()).unwrap_or(0));
         // the same query under the default 'accept all' setting
         if scn["sim"]["type"] != "accept_all" && scn["kalg"] == "svp" {
-            if let Ok(all) = ksp_alg(scn, &json!({"type": "accept_all"})).run_vertex_oriented(src, Some(dst), &query, &Direction::Forward, &b.si) {
+            if let Ok(all) = ksp_alg(scn, &json!({"type": "accept_all"})).and_then(|a| a.run_vertex_oriented(src, Some(dst), &query, &Direction::Forward, &b.si).map_err(|e| e.to_string())) {
                 ev["n_accept_all"] = json!(all.routes.len());
             }
         }
@@ -95,6 +110,9 @@ fn setup_of(scn: &Value) -> Value {
     ev["gc"] = json!(vec![0; nv]);
     ev["init_obs"] = scn["init"].clone();
     ev["units"] = norm_units(scn);
+    // termination criterion: "default" is the exact criterion
+    let t = scn["term"]["type"].as_str().unwrap_or("default");
+    ev["term"] = json!({"type": if t == "default" { "exact" } else { t }, "n": scn["term"]["n"].as_i64().unwrap_or(0)});
     ev
 }
 
@@ -207,6 +225,14 @@ fn gen(r: &mut StdRng, maxv: usize) -> Value {
         sim["p"] = json!(0);
     }
     s["sim"] = sim;
+    // termination criterion of the alternatives loop: default, explicit exact, or the two conditional ones with values
+    // below / at / above k (below: the criterion can never fire and only the final truncation keeps the count at k)
+    s["term"] = match r.gen_range(0..10) {
+        0..=3 => json!({"type": "default", "n": 0}),
+        4 => json!({"type": "exact", "explicit": true, "n": 0}),
+        5..=7 => json!({"type": "max", "n": r.gen_range(0..=(k as i64 + 1))}),
+        _ => json!({"type": "factor", "n": r.gen_range(0..=3)}),
+    };
     s
 }
 
